@@ -29,6 +29,9 @@ class GopherPlusProtocol(GopherProtocol):
         else:
             return False  # Too many params.
 
+        if not self.gopherpstring:
+            return False  # Empty field: not a Gopher+ request.
+
         return (
             self.gopherpstring[0] == "+"
             or self.gopherpstring == "!"
